@@ -105,3 +105,18 @@ Print Assumptions C09_release_from_source.
 Theorem C09_hint_after_mount : forall d dsize ro pc s dirty, mount d dsize ro pc = Ok (s, dirty) -> s_hint s = 0 /\ hint_inv s.
 Proof. exact mount_hint_inv. Qed.
 Print Assumptions C09_hint_after_mount.
+
+(** ... and through whole histories (Proofs/HintOps.v): every state a history of interface calls — create, makedir, remove, removedir, removetree,
+    setinfo, openbin, handle write / truncate / close — reaches from a state with the invariant (a mounted volume has it) has it too;
+    so after ANY such history a request is refused exactly when the whole table has too few free clusters: room made by removals is found *)
+From Coq Require Import Relations.
+From PyFatV Require Import Proofs.BootSafe Proofs.Inside Proofs.HintOps.
+Theorem C09_hint_over_histories : forall s s', pre s -> hint_inv s -> clos_refl_trans st wstep s s' -> hint_inv s'.
+Proof. exact history_hint_inv. Qed.
+Print Assumptions C09_hint_over_histories.
+Theorem C09_refused_only_when_full_after_history : forall s s' size erase,
+  pre s -> hint_inv s -> clos_refl_trans st wstep s s' -> s_ro s' = false -> 0 <= Gen.calc_num_clusters (s_p s') size ->
+  (allocate s' size erase = Err ENOSPC <->
+   (count_free (s_fat s') (ft s') (max_cluster s') (length (s_fat s')) 0 < Z.to_nat (Gen.calc_num_clusters (s_p s') size))%nat).
+Proof. exact history_enospc_exact. Qed.
+Print Assumptions C09_refused_only_when_full_after_history.
